@@ -7,6 +7,7 @@ mod gen;
 mod hwwalk;
 mod refmodel;
 mod simphys;
+mod trapemu;
 mod props;
 mod util;
 
@@ -58,6 +59,14 @@ fn main() {
     util::silence_panics();
     let t0 = Instant::now();
     let mut rep = Report::new(&a.prop.to_uppercase());
+    {
+        let e = util::emergency();
+        e.report = &mut rep as *mut Report;
+        e.out = a.out.clone();
+        e.seed = a.seed;
+        e.shard = a.shard;
+        e.t0 = Some(t0);
+    }
     let known = props::run(&a, &mut rep);
     if !known {
         eprintln!("unknown property {}", a.prop);
